@@ -35,12 +35,19 @@ def gen_case(rng, k):
         provs.append({"name": nm, "hook": hook, "deps": deps, "cleanup": rng.random() < 0.65, "err": rng.random() < 0.4})
     if not any(p["cleanup"] for p in provs[:-1]):
         provs[0]["cleanup"] = True
+    result = None
+    if rng.random() < 0.5:
+        # the injector returns a value of a basic kind (built last, from everything): its zero value is a literal of its own
+        under, zero, val = rng.choice([("bool", "false", "true"), ("int", "0", "7"), ("string", '""', '"s"'), ("float64", "0", "1.5"),
+                                       ("uint8", "0", "3"), ("complex128", "0", "2i"), ("rune", "0", "'x'")])
+        provs.append({"name": "Res", "hook": False, "basic": (under, zero, val), "deps": list(range(n)), "cleanup": False, "err": True})
+        result = "Res"
     params = []
     if rng.random() < 0.4:
         params = rng.sample(PARAM_NAMES, rng.randint(1, 2))
     decls = rng.sample(DECL_NAMES, rng.randint(0, 2)) if rng.random() < 0.5 else []
     decls = [d for d in decls if d not in params]
-    return {"pkg": "h%d" % k, "provs": provs, "params": params, "decls": decls}
+    return {"pkg": "h%d" % k, "provs": provs, "params": params, "decls": decls, "result": result}
 
 
 def materialise(ws, case):
@@ -50,7 +57,9 @@ def materialise(ws, case):
          "var Log []string", "", "var FailAt = -1", "", "var ErrBoom = errors.New(\"boom\")", "",
          "func logf(f string, a ...interface{}) { Log = append(Log, fmt.Sprintf(f, a...)) }", ""]
     for i, p in enumerate(case["provs"]):
-        if p["hook"]:
+        if p.get("basic"):
+            L.append("type %s %s" % (p["name"], p["basic"][0]))
+        elif p["hook"]:
             L.append("type %s func()" % p["name"])
         else:
             L.append("type %s struct{ N int }" % p["name"])
@@ -59,6 +68,8 @@ def materialise(ws, case):
         rs = res[0] if len(res) == 1 else "(" + ", ".join(res) + ")"
         val = ("%s(func() { logf(\"hook %d called\") })" % (p["name"], i)) if p["hook"] else "%s{N: %d}" % (p["name"], i)
         zero = "nil" if p["hook"] else p["name"] + "{}"
+        if p.get("basic"):
+            val, zero = "%s(%s)" % (p["name"], p["basic"][2]), "%s(%s)" % (p["name"], p["basic"][2])   # a failing provider may return anything
         L.append("func Provide%d(%s) %s {" % (i, args, rs))
         if p["err"]:
             fail = [zero] + (['func() { logf("own cleanup of failed %d called") }' % i] if p["cleanup"] else []) + ["ErrBoom"]
@@ -66,7 +77,7 @@ def materialise(ws, case):
         L.append('\tlogf("acquire %d")' % i)
         ok = [val] + (['func() { logf("release %d") }' % i] if p["cleanup"] else []) + (["nil"] if p["err"] else [])
         L.append("\treturn %s\n}\n" % ", ".join(ok))
-    fields = "\n".join("\tF%d %s" % (i, p["name"]) for i, p in enumerate(case["provs"]))
+    fields = "\n".join("\tF%d %s" % (i, p["name"]) for i, p in enumerate(case["provs"]) if not p.get("basic"))
     L.append("type App struct {\n%s\n}\n" % fields)
     for nm in case["decls"]:
         L.append("var %s = 0\n" % nm)
@@ -76,8 +87,9 @@ def materialise(ws, case):
     params = ", ".join("%s P%d" % (nm, j) for j, nm in enumerate(case["params"]))
     provs = ", ".join("Provide%d" % i for i in range(len(case["provs"])))
     open(d + "/wire.go", "w").write(
-        "//go:build wireinject\n// +build wireinject\n\npackage %s\n\nimport \"github.com/google/wire\"\n\n"
-        "func Init(%s) (*App, func(), error) {\n\tpanic(wire.Build(%s, wire.Struct(new(App), \"*\")))\n}\n" % (case["pkg"], params, provs))
+        "//go:build wireinject\n// +build wireinject\n\npackage %s\n\nimport \"github.com/google/wire\"\n\n" % case["pkg"] +
+        "func Init(%s) (%s, func(), error) {\n\tpanic(wire.Build(%s%s))\n}\n" % (
+            params, "Res" if case.get("result") else "*App", provs, "" if case.get("result") else ', wire.Struct(new(App), "*")'))
 
 
 DRIVER_HEAD = '''package main
@@ -138,7 +150,8 @@ def run_c04(rep, tier, which="C04"):
             for fa in ([-1] if which == "C04" else fallible):
                 L.append("\t{\n\t\t%s.Log, %s.FailAt = nil, %d\n\t\tapp, cl, err := %s.Init(%s)" % (p, p, fa, p, args))
                 L.append('\t\tshow("%s %d init", %s.Log)' % (p, fa, p))
-                L.append('\t\tfmt.Printf("%s %d result|%%v|%%v|%%v\\n", app != nil, cl != nil, err == %s.ErrBoom)' % (p, fa, p))
+                nz = "app != nil" if not c.get("result") else "app != %s.Res(%s)" % (p, [x for x in c["provs"] if x.get("basic")][0]["basic"][1])
+                L.append('\t\tfmt.Printf("%s %d result|%%v|%%v|%%v\\n", %s, cl != nil, err == %s.ErrBoom)' % (p, fa, nz, p))
                 L.append("\t\t%s.Log = nil\n\t\tif cl != nil {\n\t\t\tcl()\n\t\t}" % p)
                 L.append('\t\tshow("%s %d cleanup", %s.Log)\n\t}' % (p, fa, p))
         L.append("}\n")
